@@ -391,11 +391,11 @@ def correspond(ctx, proof_ok=True):
         raise RuntimeError('C12/Model.v does not build:\n' + log[-2000:])
     rng = ctx.rng
     jobs = []
-    for k in range(ctx.n(30, 600)):
+    for k in range(ctx.n(26, 500)):
         jobs.append(gen_window_job(rng, allcaps=(k % 5 in (0, 1)), onecap=(k % 10 in (0, 7))))
-    for _ in range(ctx.n(150, 3000)):
+    for _ in range(ctx.n(120, 3000)):
         jobs.append(gen_cap_job(rng))
-    for _ in range(ctx.n(300, 5000)):
+    for _ in range(ctx.n(240, 5000)):
         jobs.append(gen_setuse_job(rng))
     nb = C.NPROC
     batches = [jobs[i::nb] for i in range(nb)]
@@ -504,14 +504,15 @@ def correspond(ctx, proof_ok=True):
                     count('balkans')
 
     # heavy cases (whole polygon lists) in shards of bounded text size, the rest 150 per shard
-    cc = C.CoqCases(ctx.work, HEADER, 'run_cases', shard=150)
+    cc = C.CoqCases(ctx.work, HEADER, 'run_cases', shard=120)
     verdicts = [None] * len(terms)
     heavy = [k for k, (_, info, _) in enumerate(terms) if info['what'] in ('is_in_window', 'is_in_polygon', 'balkans')]
     hs = set(heavy)
     light = [k for k in range(len(terms)) if k not in hs]
     groups, cur, size = [], [], 0
+    limit = max(30000, sum(len(terms[k][2]) for k in heavy) // max(1, C.NPROC - 3) + 1) if not ctx.thorough else 60000
     for k in heavy:
-        if cur and size + len(terms[k][2]) > 40000:
+        if cur and size + len(terms[k][2]) > limit:
             groups.append(cur)
             cur, size = [], 0
         cur.append(k)
@@ -574,7 +575,8 @@ def correspond(ctx, proof_ok=True):
         seen.add(sig)
         ctx.violation(sig, summary, replay, found)
 
-    for ji, info, t, v in bad:
+    prio = {'is_in_cap': 0, 'is_in_polygon': 1, 'is_in_window': 2}
+    for ji, info, t, v in sorted(bad, key=lambda b: (prio.get(b[1]['what'], 3), len(b[2]))):
         j, r = jobs[ji], results[ji]
         pos = v // 4
         found = bool(v & 2)
